@@ -14,7 +14,7 @@ CONSTANTS
   N,            \* targets are 1..N; deps[t] \subseteq 1..t-1 (every DAG has such a labelling)
   Watch,        \* BOOLEAN  --watch
   MaxChanges,   \* bound on the number of FileChange steps (watch mode)
-  Failures,     \* BOOLEAN  scripts / service launches may fail (mayFail chosen in Init)
+  Failures,     \* BOOLEAN  any script / service launch may fail, whenever it runs
   Slow,         \* BOOLEAN  some scripts never finish (slow chosen in Init)
   Signals,      \* BOOLEAN  SIGINT/SIGTERM may arrive, at any moment
   Skips,        \* BOOLEAN  an earlier invocation may have left a current record
@@ -22,7 +22,8 @@ CONSTANTS
   CapChan,      \* capacity of the actor->relay channel, 0 = unbounded   (main.rs:93)
   CapInbox,     \* capacity of an actor inbox, 0 = unbounded              (target_actor/mod.rs:89)
   AckLate,      \* TRUE = code acknowledges a requester registering after completion (repair of F1)
-  RecordBefore  \* TRUE = input state captured before the script (repair of F3)
+  RecordBefore, \* TRUE = input state captured before the script (repair of F3)
+  StrictStart   \* TRUE = demand C01's watch clause at the instant of the spawn (exhibits finding F10)
 
 T == 1..N
 ROOT == 0
@@ -31,7 +32,7 @@ EK == {"b", "s"}                   \* ExecutionKind::{Build, Service}
 
 VARIABLES
   \* ---- configuration (chosen in Init, never changed)
-  kind, deps, roots, mayFail, slow, inh,
+  kind, deps, roots, slow, inh,
   \* ---- actors
   st,        \* [T -> local record]       TargetActorHelper + actor-specific fields
   inbox,     \* [T -> Seq(msg)]           target_actor_input channel
@@ -66,7 +67,7 @@ VARIABLES
   proc,      \* [T -> 0..2] live shells of t (build shell or service instances)
   viol       \* set of names of violated step properties (monitors)
 
-cfgVars == <<kind, deps, roots, mayFail, slow, inh>>
+cfgVars == <<kind, deps, roots, slow, inh>>
 actVars == <<st, inbox, pend, out, invalSlot, termSlot, launched, alive>>
 rootVars == <<hold, rootPhase, reqIdx, unavB, unavS, svcRoots, termRecv, exitStatus, errTarget>>
 envVars == <<signalled, sigUsed, inVer, gen, rec, cap, saw, outOf, notif, nChanges>>
@@ -127,7 +128,7 @@ InitLocal(t) == [toExec |-> TRUE, executed |-> FALSE,
 \* target_actor_helper.rs:55
 ShouldExec(s, k) == s.toExec /\ Reqs(s, k) # {} /\ s.unavB = {} /\ s.unavS = {}
 
-R(s, o) == [st |-> s, out |-> o, started |-> FALSE, svcFail |-> FALSE, aggOk |-> {}]
+R(s, o) == [st |-> s, out |-> o, started |-> FALSE, svcFail |-> FALSE, aggOk |-> {}, begun |-> FALSE]
 
 \* target_actor_helper.rs:62  notify_invalidated
 NotifyInvalidated(t, s, k) ==
@@ -203,7 +204,7 @@ LoopTop(t, r) ==
   LET s == r.st IN
   CASE kind[t] = "b" ->
          IF ShouldExec(s, "b") /\ s.bpc = "none"
-         THEN {[r EXCEPT !.st = [s EXCEPT !.toExec = FALSE, !.executed = FALSE, !.bpc = "check"]]}
+         THEN {[r EXCEPT !.st = [s EXCEPT !.toExec = FALSE, !.executed = FALSE, !.bpc = "check"], !.begun = TRUE]}
          ELSE {r}
     [] kind[t] = "s" ->
          IF ShouldExec(s, "s")
@@ -211,7 +212,7 @@ LoopTop(t, r) ==
               {[r EXCEPT !.st = [s EXCEPT !.toExec = FALSE, !.executed = TRUE, !.up = TRUE],
                          !.out = r.out \o ToSet(t, s.reqS, "ok", "s", TRUE),
                          !.started = TRUE]}
-              \cup (IF t \in mayFail
+              \cup (IF Failures
                     THEN {[r EXCEPT !.st = [s EXCEPT !.toExec = FALSE, !.executed = FALSE, !.up = FALSE],
                                     !.out = r.out \o <<Err(t)>>, !.svcFail = TRUE]}
                     ELSE {})
@@ -264,7 +265,7 @@ StartOK(t, w) ==
 AggOK(t, w, k) == \A d \in deps[t] : w[d][k] = "ok"
 
 MonRecv(t, m, r) ==
-  viol' = viol \cup (IF (r.started \/ r.svcFail) /\ ~StartOK(t, WordAfter(t, m)) THEN {"StartSafe"} ELSE {})
+  viol' = viol \cup (IF (r.started \/ r.svcFail \/ r.begun) /\ ~StartOK(t, WordAfter(t, m)) THEN {"StartSafe"} ELSE {})
                \cup (IF \E k \in r.aggOk : ~AggOK(t, WordAfter(t, m), k) THEN {"AggForwardSafe"} ELSE {})
 
 -----------------------------------------------------------------------------
@@ -288,7 +289,7 @@ RecvInval(t) ==
   /\ \E r \in LoopTop(t, NotifyInvalidated(t, st[t], kind[t])) :
        /\ Emit(t, r)
        /\ ObsRecv(t, [ty |-> "none"], r)
-       /\ viol' = viol \cup (IF (r.started \/ r.svcFail) /\ ~StartOK(t, word[t]) THEN {"StartSafe"} ELSE {})
+       /\ viol' = viol \cup (IF (r.started \/ r.svcFail \/ r.begun) /\ ~StartOK(t, word[t]) THEN {"StartSafe"} ELSE {})
   /\ UNCHANGED <<cfgVars, inbox, termSlot, launched, alive, rootVars, envVars, nSkip>>
 
 \* the termination_events arm
@@ -328,8 +329,9 @@ BuildSpawn(t) ==
   /\ \/ /\ st' = [st EXCEPT ![t].bpc = "script"]
         /\ nStart' = [nStart EXCEPT ![t] = @ + 1]
         /\ proc' = [proc EXCEPT ![t] = @ + 1]
-        /\ viol' = viol \cup (IF ~StartOK(t, word[t]) THEN {"StartSafe"} ELSE {})
-     \/ /\ t \in mayFail          \* "Failed to spawn build command"
+        \* F10 (open finding): an Invalidated received between the loop-top test and the spawn is not acted upon
+        /\ viol' = viol \cup (IF ~StartOK(t, word[t]) THEN {"StartSafeAtSpawn"} ELSE {})
+     \/ /\ Failures          \* "Failed to spawn build command"
         /\ st' = [st EXCEPT ![t].bpc = "done_fail"]
         /\ UNCHANGED <<nStart, proc, viol>>
   /\ UNCHANGED <<cfgVars, inbox, pend, out, invalSlot, termSlot, launched, alive, rootVars,
@@ -351,7 +353,7 @@ ScriptFinish(t) ==
   /\ \/ /\ st' = [st EXCEPT ![t].bpc = "record"]
         /\ gen' = [gen EXCEPT ![t] = @ + 1]
         /\ outOf' = [outOf EXCEPT ![t] = saw[t]]
-     \/ /\ t \in mayFail
+     \/ /\ Failures
         /\ st' = [st EXCEPT ![t].bpc = "done_fail"]
         /\ UNCHANGED <<gen, outOf>>
   /\ UNCHANGED <<cfgVars, inbox, pend, out, invalSlot, termSlot, launched, alive, rootVars,
@@ -389,14 +391,17 @@ BuildResult(t) ==
      IN /\ IF s.termSeen
            THEN /\ Emit(t, r0)
                 /\ alive' = [alive EXCEPT ![t] = FALSE]
-           ELSE /\ \E r \in LoopTop(t, r0) : Emit(t, r)
+                /\ viol' = viol
+           ELSE /\ \E r \in LoopTop(t, r0) :
+                     /\ Emit(t, r)
+                     /\ viol' = viol \cup (IF r.begun /\ ~StartOK(t, word[t]) THEN {"StartSafe"} ELSE {})
                 /\ alive' = alive
         /\ nSkip' = IF ph = "done_skip" THEN [nSkip EXCEPT ![t] = @ + 1] ELSE nSkip
         /\ ready' = IF ph \in {"done_skip", "done_ok"} THEN [ready EXCEPT ![t] = TRUE] ELSE ready
         /\ failed' = IF ph = "done_fail" THEN [failed EXCEPT ![t] = TRUE]
                      ELSE IF ph \in {"done_skip", "done_ok"} THEN [failed EXCEPT ![t] = FALSE] ELSE failed
   /\ UNCHANGED <<cfgVars, inbox, invalSlot, termSlot, launched, rootVars, envVars,
-                 nStart, word, proc, viol>>
+                 nStart, word, proc>>
 
 -----------------------------------------------------------------------------
 (* Relay and root: engine::run, execute_once / watch, main.rs:98-109 *)
@@ -553,7 +558,6 @@ Init ==
   /\ deps \in [T -> SUBSET T]
   /\ \A t \in T : deps[t] \subseteq 1..(t - 1)
   /\ roots \in (SUBSET T) \ {{}}
-  /\ mayFail \in IF Failures THEN SUBSET {t \in T : kind[t] # "a"} ELSE {{}}
   /\ slow \in IF Slow THEN SUBSET {t \in T : kind[t] = "b"} ELSE {{}}
   /\ inh \in IF Inherit THEN [T -> SUBSET T] ELSE {[t \in T |-> {}]}
   /\ \A t \in T : inh[t] \subseteq {d \in deps[t] : kind[d] = "b"} /\ (kind[t] = "a" => inh[t] = {})
@@ -582,7 +586,9 @@ Spec == Init /\ [][Next]_vars
 
 C == Closure(roots)
 
-NoStepViolation == viol = {}                       \* C01 StartSafe, AggForwardSafe; C07 (start part)
+\* C01 StartSafe, AggForwardSafe; C07 (start part).  In watch mode the spawn-time form of StartSafe is the
+\* open finding F10 (see DESIGN.md): it is required with StrictStart, tolerated otherwise.
+NoStepViolation == viol \subseteq (IF Watch /\ ~StrictStart THEN {"StartSafeAtSpawn"} ELSE {})
 
 \* C08: one-shot: nothing twice, nothing outside the closure
 OnceOnly == ~Watch =>
